@@ -59,10 +59,10 @@ theorem compile_optType {α : Type} [Arith α] {m : Model α} {tol : α} {maxSte
 theorem compilesTo_of_compile {m : Model (Ext K)} {t : K} (ht : 0 ≤ t) {maxSteps : Nat} {lm : LinModel (Ext K)}
     (h : Compile.linearize m (.fin t) maxSteps = .ok lm)
     (hm : FragModel true m m.domain) (hok : DeclOK m.domain)
-    (hint : ∀ an, pipelineAnalyzer m (.fin t) maxSteps = some an → IntRangesInBox an m.domain) :
+    (ht1 : t < 1 ∨ NoIntegerVars m.domain) :
     CompilesTo m lm :=
-  ⟨compile_optType h, hm.objDefined, compile_feasible_iff ht h hm hok hint,
-    compile_objective ht h hm hok hint⟩
+  ⟨compile_optType h, hm.objDefined, compile_feasible_iff ht h hm hok ht1,
+    compile_objective ht h hm hok ht1⟩
 
 /-! ### order facts about `better` / `rel (objReq m)` -/
 
